@@ -159,6 +159,11 @@ def main(argv=None):
     meta = importlib.import_module(f'vlab.props.{prop.lower()}').META
     reports, wall = run_shards(prop, args.tier, seed, meta, replay=args.replay)
     m = merge(reports)
+    mod = importlib.import_module(f'vlab.props.{prop.lower()}')
+    if hasattr(mod, 'post_merge') and not args.replay:
+        for key, msg, wit in mod.post_merge(m):
+            m['violations'].append({'key': key, 'msg': msg, 'witness': wit})
+            m['n_violations'] += 1
     known = [k for k in load_known() if k['property'] == prop and k.get('status') == 'open']
     known_keys = {k['key']: k for k in known}
     new, hit_known = [], Counter()
